@@ -48,6 +48,8 @@ PROPS = {
     "C05": sim("C05", 600, 20000),
     "C07": sim("C07", 1000, 30000),
     "C17": sim("C17", 800, 20000),
+    "C10": sim("C10", 500, 15000),
+    "C11": node(["TestC11", "TestC11Sim"], 500, 15000),
     "C13": {
         "test": "TestC13", "corpus_test": "TestCorpusC13", "level": "fault_enumeration",
         "engine": "E-STORE",
@@ -91,6 +93,10 @@ MANIFEST_TEXT = {
     "C04": simtext("Schedules with kills immediately before/after generated storage operations, all-node crashes and majority-only restarts; at every first application and acknowledgement each voter's on-disk log (crash image for dead nodes) is read back through the real constructors and a strict majority must hold the entry; recovered logs must equal what was stored."),
     "C05": simtext("Schedules with unbounded message delay built around a deposed-but-unaware leader (hold-partitions, old replies released first, leader left with non-voters, reads at freshly elected leaders after whole-cluster restarts, slow state machines) with concurrent writers and linearizable readers; a successful read must reflect every write acknowledged before its invocation (recorder order) and reads must not go backwards."),
     "C17": simtext("Bounded-delay network (each message delivered within a drawn D or lost; LD + D < ET), perfect virtual clocks; lease-based reads at any node at any instant under partitions and leader changes; staleness oracle of C05 plus the necessary condition that a voting member answered the serving node within the preceding lease duration."),
+    "C10": simtext("Snapshot schedules (armed by the schedule or by a log-size threshold on any node, slow Apply/Snapshot/Restore calls, lagging followers, crashes after a snapshot became visible, payloads of 0 B to more than three chunks); every snapshot file is intercepted on Close, decoded and compared with the authoritative applied order up to its label (nothing later, nothing missing), label term and configuration are checked, and every state machine instance is checked for duplicate or skipped applications after restores. The known finding F12 (mixed chunks) is matched by its mechanism and the search continues behind it."),
+    "C11": {"technique": "model-based property testing: rapid-generated InstallSnapshot chunk sequences with AppendEntries/RequestVote probes against a full-log reference twin on one real node, plus monitors over generated cluster schedules",
+            "level_text": "Inputs part: a seeded follower (C06 world), two sender snapshots with drawn labels, sizes and chunking, up to 8 requests over their chunks in any order with duplicates and lower/equal/higher terms, interleaved with AppendEntries and RequestVote probes; applied/commit index must not decrease, committed entries beyond the label must survive, every snapshot file that becomes visible must equal a sender snapshot exactly, and probes at or above the boundary must be answered like a reference-model twin that holds the full log. Schedules part: the same monitors in snapshot-heavy cluster campaigns with leader changes during transfers.",
+            "level_note": "Trusted: the world generator, the twin model (below the boundary only 'rejected, or accepted in agreement with the sender' is required), the storage wrappers' byte tee. Chunks are always genuine (offset, bytes) pairs of a sender file."},
     "C07": simtext("Schedules biased to elections between differing logs; at the first sign of leadership of each (node, term) the node's stored log is compared with the set of entries ever observed committed or applied; truncations of committed entries are flagged at any time."),
     "C13": {
         "test": "TestC13", "corpus_test": "TestCorpusC13", "level": "fault_enumeration",
